@@ -221,7 +221,7 @@ func (th *Thread) callBuiltin(caller *frame, pos token.Pos, b *ssa.Builtin, args
 			n = dst.Len
 		}
 		for i := 0; i < n; i++ {
-			th.store(Ptr{Obj: dst.Arr, Path: []int{dst.Off + i}}, src[i], pos)
+			th.store(dst.elemPtr(i), src[i], pos)
 		}
 		return tb.Int(64, int64(n))
 	case "delete":
